@@ -1906,6 +1906,25 @@ func (e *CoreExtension) filterSort(value interface{}, args ...interface{}) (inte
 		// This ensures [3, '1', 2, '10'] sorts as ['1', '10', '2', '3']
 		result := make([]interface{}, len(v))
 		copy(result, v)
+
+		// A list of numbers is ordered numerically
+		allNumbers := true
+		for _, item := range v {
+			switch item.(type) {
+			case int, int8, int16, int32, int64, uint, uint8, uint16, uint32, uint64, float32, float64:
+			default:
+				allNumbers = false
+			}
+		}
+		if allNumbers {
+			sort.SliceStable(result, func(i, j int) bool {
+				a, _ := toFloat64(toString(result[i]))
+				b, _ := toFloat64(toString(result[j]))
+				return a < b
+			})
+			return result, nil
+		}
+
 		sort.Slice(result, func(i, j int) bool {
 			return toString(result[i]) < toString(result[j])
 		})
